@@ -193,7 +193,15 @@ def resolve(op, model, path, r):
     """Turn a generated op into a concrete one given the current state."""
     if op[0] == 'add':
         size = op[1]
-        if size < 0:
+        if isinstance(size, tuple):
+            fs = os.path.getsize(path)
+            with _REAL_OPEN(path, 'rb') as f:
+                f.seek(J.LAST_RECORD_OFFSET_OFFSET)
+                off = struct.unpack('<I', f.read(4))[0]
+            size = fs + size[1] - off - 24          # record = 4 + (8 + 8 + command) + 4 bytes at the current end
+            if size < 0:
+                size = op[2] % 50
+        elif size < 0:
             fs = os.path.getsize(path)
             size = int(fs * r.choice([1.0, 2.1, 3.5])) + r.randint(0, 64)
             size = min(size, 300000)
@@ -360,9 +368,16 @@ class Case(object):
         commits = {1}
         j = J.FileJournal(self.path)
         ops = gen_ops(r, self.nops, 0)
+        rb = random.Random(h32('e3edge', self.seed))
+        if rb.random() < 0.5:
+            # records that end exactly at / one byte around the end of the file as it is (where the file has to grow, or just not)
+            ops = [(('add', ('edge', rb.choice([-1, 0, 1, 1, 2])), o[2], o[3], o[4]) if o[0] == 'add' and o[1] >= 0 and rb.random() < 0.3 else o)
+                   for o in ops]
         try:
             for raw in ops:
                 op = resolve(raw, model, self.path, r)
+                if raw[0] == 'add' and isinstance(raw[1], tuple):
+                    self.stats['add_ending_%+d_from_file_end' % raw[1][1]] += 1
                 self.trace.append(short(op))
                 self.stats['op_' + op[0]] += 1
                 if op[0] == 'reopen':
